@@ -889,6 +889,9 @@ func r7BuildNodeKeepsWhatItBuilt(w *World, r *Report, rule string) {
 // round7 registers the rules of this file with their properties.
 func round7(w *World, r *Report, prop string) {
 	switch prop {
+	case "C06":
+		r.Rule("R06.10", "no scratch buffer is shared between runs: outside the package initialiser no function of package xpath slices, or stores into an element of, a package-level array or slice", 1)
+		r.guard("R06.10", func() { r8NoSharedBuffer(w, r, "R06.10") })
 	case "C02":
 		r.Rule("R02.12", "a run starts from an empty path: no package-level channel, pool or synchronised map in the xpath packages hands a path stack (or any other per-run object) from one run to the next (same analysis as R06.9) — a recycled stack of a run that was cut short carries its path into the next relative path", 1)
 		r.guard("R02.12", func() { r6NoHandOver(w, r, "R02.12") })
@@ -945,11 +948,36 @@ func round7(w *World, r *Report, prop string) {
 		r.Rule("R05.15", "a leafref predicate is evaluated only in the state its instructions were written for: LRefEquals raises its error unless exactly one key name element is pending", 1)
 		r.guard("R05.15", func() { r7ExactlyOneKeyName(w, r, "R05.15") })
 	case "C07":
+		r.Rule("R07.16", "the lexer is given up in the open: Tree.Parse defers nothing but t.recover — a deferred stopParse would run before recover and clear t.lex, so recover would skip the drain and the lexer goroutine stay blocked", 1)
+		r.guard("R07.16", func() {
+			f := w.SSAFunc(w.Method("parse", "Tree", "Parse"))
+			rec := w.SSAFunc(w.Method("parse", "Tree", "recover"))
+			if f == nil || rec == nil {
+				panic(undecided{"Tree.Parse / Tree.recover"})
+			}
+			nRec, other := 0, ""
+			for _, b := range f.Blocks {
+				for _, in := range b.Instrs {
+					if d, ok := in.(*ssa.Defer); ok {
+						if d.Call.StaticCallee() == rec {
+							nRec++
+						} else {
+							other = pcCalleeName(&d.Call)
+						}
+					}
+				}
+			}
+			r.Check(nRec == 1 && other == "", "R07.16", "Tree.Parse defers only recover", f.Pos(), "one deferred call: t.recover(&err)", "Parse also defers "+other+": deferred calls run last-in first-out, so it runs before recover; if it gives the lexer up (t.lex = nil) recover no longer drains it and the lexer goroutine of a rejected text stays blocked on its send forever")
+		})
 		r.Rule("R07.14", "no slice bound is computed from what an earlier line left behind: in trimWhitespace's per-line loop nothing but the result is carried from one line to the next (same analysis as R08.9) — a stale `ended in CR` flag slices an empty line at -1, a run-time error that Tree.recover re-raises", 1)
 		r.guard("R07.14", func() { c08LineLoop(w, r, "R07.14", "R07.14") })
 		r.Rule("R07.15", "line and column lie inside the text the caller handed in: the lexer scans that text itself (lexer.input is the parameter as it stands), since Tree.errorf and ErrorContext measure positions in it", 1)
 		r.guard("R07.15", func() { r7LexerScansTheTextGiven(w, r, "R07.15") })
 	case "C08":
+		r.Rule("R08.21", "separators are space, tab, CR and LF only: lexSep moves over the input through the lexer's next() under isSep — it neither sets the position itself nor asks another classifier", 1)
+		r.guard("R08.21", func() { r8SeparatorSet(w, r, "R08.21") })
+		r.Rule("R08.20", "a token's text is its own: the string interner every token value passes through hands back a string equal to the one it was given (table keyed by, and holding, the whole string)", 1)
+		r.guard("R08.20", func() { r8StringInternerIdentity(w, r, "R08.20") })
 		r.Rule("R08.18", "in a double-quoted string a backslash takes the next character with it: lexQuote reads one more rune exactly when the rune just read is a backslash (and the string is double-quoted), before it looks for the closing quote", 1)
 		r.guard("R08.18", func() { r7QuoteEscapes(w, r, "R08.18") })
 		r.Rule("R08.19", "an unquoted argument is the text up to the next separator, quote, ';', '{', '}' or the end of the input — exactly that set, CR included", 1)
@@ -958,6 +986,10 @@ func round7(w *World, r *Report, prop string) {
 		r.Rule("R09.15", "every statement is checked, whatever was checked before: in Tree.stmt the call of check() lies on every path that returns the node built (no memo of arguments already seen)", 1)
 		r.guard("R09.15", func() { r7StmtAlwaysChecked(w, r, "R09.15") })
 	case "C10":
+		r.Rule("R10.17", "separators are space, tab, CR and LF only: lexSep moves over the input through the lexer's next() under isSep — it neither sets the position itself nor asks another classifier", 1)
+		r.guard("R10.17", func() { r8SeparatorSet(w, r, "R10.17") })
+		r.Rule("R10.16", "a token's text is its own: the string interner every token value passes through hands back a string equal to the one it was given (table keyed by, and holding, the whole string)", 1)
+		r.guard("R10.16", func() { r8StringInternerIdentity(w, r, "R10.16") })
 		r.Rule("R10.15", "a node's position is an offset into the text that was handed in: the lexer scans that text itself (same analysis as R07.15) — stripping a byte-order mark or appending a line break shifts every position", 1)
 		r.guard("R10.15", func() { r7LexerScansTheTextGiven(w, r, "R10.15") })
 	case "C11":
@@ -1223,4 +1255,144 @@ func r8CommaOkUsed(w *World, r *Report, rule string) {
 	if n == 0 {
 		panic(undecided{"package xpath: no checked type assertion found"})
 	}
+}
+
+// r8NoSharedBuffer (R06.10): no function of package xpath takes a slice of, or
+// stores into an element of, a package-level array or slice variable (the
+// package initialiser excepted): such a variable is a scratch buffer every run
+// in the process shares.
+func r8NoSharedBuffer(w *World, r *Report, rule string) {
+	pkg := w.SSAPkg("xpath")
+	nGlobals := 0
+	for _, m := range pkg.Members {
+		if _, ok := m.(*ssa.Global); ok {
+			nGlobals++
+		}
+	}
+	bad := ""
+	var badPos token.Pos
+	for _, fn := range allFuncs(pkg) {
+		if isTestFile(w, fn.Pos()) || (fn.Name() == "init" && fn.Synthetic != "") {
+			continue
+		}
+		isGlobalBuf := func(v ssa.Value) *ssa.Global {
+			if g, ok := v.(*ssa.Global); ok {
+				return g
+			}
+			if ld, ok := v.(*ssa.UnOp); ok && ld.Op == token.MUL {
+				if g, ok := ld.X.(*ssa.Global); ok {
+					if _, isSl := g.Type().(*types.Pointer).Elem().Underlying().(*types.Slice); isSl {
+						return g
+					}
+				}
+			}
+			return nil
+		}
+		for _, b := range fn.Blocks {
+			for _, in := range b.Instrs {
+				switch x := in.(type) {
+				case *ssa.Slice:
+					if g := isGlobalBuf(x.X); g != nil {
+						if _, isArr := g.Type().(*types.Pointer).Elem().Underlying().(*types.Array); isArr {
+							bad, badPos = g.Name()+" is sliced in "+funcKey(fn), x.Pos()
+						}
+					}
+				case *ssa.Store:
+					if ia, ok := x.Addr.(*ssa.IndexAddr); ok {
+						if g := isGlobalBuf(ia.X); g != nil {
+							bad, badPos = "an element of "+g.Name()+" is written in "+funcKey(fn), x.Pos()
+						}
+					}
+				}
+			}
+		}
+	}
+	if nGlobals == 0 {
+		panic(undecided{"package xpath: no package-level variable found"})
+	}
+	r.Check(bad == "", rule, fmt.Sprintf("package xpath: %d package-level variables, none used as a scratch buffer", nGlobals), badPos, "no slice of, no element store into, a package-level array or slice outside the initialiser", "a package-level buffer is written while expressions run ("+bad+"): overlapping runs, on any machines, overwrite each other's digits or bytes")
+}
+
+// r8StringInternerIdentity (R08.20 / R10.16): StringInterner.Intern hands back
+// a string equal to the one it is given: its table is keyed by the whole
+// string and stores that string.
+func r8StringInternerIdentity(w *World, r *Report, rule string) {
+	f := w.SSAFunc(w.Method("parse", "StringInterner", "Intern"))
+	if f == nil || len(f.Params) != 2 {
+		panic(undecided{"parse.StringInterner.Intern"})
+	}
+	in := ssa.Value(f.Params[1])
+	n := 0
+	why := ""
+	for _, b := range f.Blocks {
+		for _, ins := range b.Instrs {
+			switch x := ins.(type) {
+			case *ssa.Lookup:
+				if _, isMap := x.X.Type().Underlying().(*types.Map); isMap {
+					n++
+					if x.Index != in {
+						why = "the table is looked up by `" + x.Index.String() + "`, not by the whole string"
+					}
+				}
+			case *ssa.MapUpdate:
+				n++
+				if x.Key != in || x.Value != in {
+					why = "the table entry is made for `" + x.Key.String() + "`, not for the whole string"
+				}
+			}
+		}
+	}
+	if n == 0 {
+		panic(undecided{"StringInterner.Intern: no table access found"})
+	}
+	r.Check(why == "", rule, "StringInterner.Intern keys its table by the whole string", f.Pos(), "lookup and entry by the string itself", why+": two different token texts (say, two long descriptions that differ near the end) are handed back as the same string, so the tree carries the text of an earlier statement — possibly of another module")
+}
+
+// r8SeparatorSet (R08.21 / R10.17): lexSep moves over the input only through
+// the lexer's next() and decides by isSep — it neither writes the position
+// itself nor asks another classifier.
+func r8SeparatorSet(w *World, r *Report, rule string) {
+	f := w.SSAFunc(w.Func("parse", "lexSep"))
+	isSep := w.SSAFunc(w.Func("parse", "isSep"))
+	if f == nil || isSep == nil {
+		panic(undecided{"parse.lexSep / parse.isSep"})
+	}
+	usesIsSep, why := false, ""
+	for _, g := range bodiesDeep(f, 1) {
+		if g.Pkg != f.Pkg || g == isSep {
+			continue
+		}
+		switch g.Name() {
+		case "next", "peek", "backup", "emit", "ignore", "lexStmt":
+			continue // the lexer's own primitives and the state handed back
+		}
+		for _, b := range g.Blocks {
+			for _, in := range b.Instrs {
+				for _, op := range in.Operands(nil) {
+					if *op == ssa.Value(isSep) {
+						usesIsSep = true
+					}
+				}
+				switch x := in.(type) {
+				case *ssa.Store:
+					if fa, ok := x.Addr.(*ssa.FieldAddr); ok {
+						if st, isSt := fa.X.Type().Underlying().(*types.Pointer).Elem().Underlying().(*types.Struct); isSt && st.Field(fa.Field).Name() == "pos" {
+							why = g.Name() + " sets the position itself"
+						}
+					}
+				case *ssa.Call:
+					if c := x.Call.StaticCallee(); c != nil && c.Pkg != nil && c.Pkg.Pkg.Path() == "unicode" {
+						why = g.Name() + " classifies with unicode." + c.Name()
+					}
+				}
+				if mc, ok := in.(*ssa.MakeClosure); ok {
+					_ = mc
+				}
+			}
+		}
+	}
+	if !usesIsSep && why == "" {
+		why = "isSep is not consulted"
+	}
+	r.Check(why == "", rule, "lexSep skips exactly the separators", f.Pos(), "moves with next() while isSep", why+": characters other than space, tab, CR and LF (a no-break space, U+3000, form feed) are swallowed into the separator although they are part of the following word, so an unquoted argument loses its first character(s) and differs from the same text written in quotes")
 }
